@@ -163,3 +163,35 @@ Theorem size_index_code_refines_model :
     forall c : nat, (c < List.length ns)%nat -> smem d (Z.of_nat c) = size_cand p (nth c ns 0) ny.
 Proof. exact size_find_candidates_refines. Qed.
 Print Assumptions size_index_code_refines_model.
+
+(* tie of the pair-level path to the source: filter_pair of SizeFilter / PrefixFilter /
+   PositionFilter / OverlapFilter, as REGENERATED on this run (Gen/FilterPairGen.v: missing-value
+   test, tokenization, pair-level token ordering, prefix lengths, position loop, allow_empty /
+   allow_missing handling, comp_op lookup), returns exactly the verdict of the hand model
+   (Spec/FilterSpec.v model_filter_pair) -- no state may be kept on the filter object *)
+From SSJ Require Import FilterPairGen FilterPairRefineBase FilterPairRefine FilterPairRefinePos FilterPairRefineSpec FilterPairRefineArith.
+Theorem generated_filter_pair_refines_model :
+  ltac:(let t := type of filter_pair_gen_refines_model in exact t).
+Proof. exact filter_pair_gen_refines_model. Qed.
+Check generated_filter_pair_refines_model.
+Print Assumptions generated_filter_pair_refines_model.
+Theorem generated_position_filter_pair_jcd :
+  ltac:(let t := type of position_filter_pair_gen_jcd in exact t).
+Proof. exact position_filter_pair_gen_jcd. Qed.
+Print Assumptions generated_position_filter_pair_jcd.
+
+(* ---- tie: the per-chunk functions generated from the source (Gen/JoinGen.v, regenerated every
+   run) produce, up to a permutation, exactly the rows of the pairwise model + projection *)
+From SSJ Require Import JoinGen SplitRefineBase SplitRefineOverlapFilter SplitRefineOvc SplitRefineFilterBase SplitRefineFilterSize SplitRefineFilterPrefix SplitRefineFilterPosition SplitRefineFilters SplitRefineEd SplitRefineProj SplitRefineProjAll SplitRefineOvcArith.
+Theorem generated_size_filter_split_refines_model :
+  ltac:(let t := type of size_filter_tables_split_rows_refines_proj in exact t).
+Proof. exact size_filter_tables_split_rows_refines_proj. Qed.
+Print Assumptions generated_size_filter_split_refines_model.
+Theorem generated_prefix_filter_split_refines_model :
+  ltac:(let t := type of prefix_filter_tables_split_rows_refines_proj in exact t).
+Proof. exact prefix_filter_tables_split_rows_refines_proj. Qed.
+Print Assumptions generated_prefix_filter_split_refines_model.
+Theorem generated_position_filter_split_refines_model :
+  ltac:(let t := type of position_filter_tables_split_rows_refines_proj in exact t).
+Proof. exact position_filter_tables_split_rows_refines_proj. Qed.
+Print Assumptions generated_position_filter_split_refines_model.
